@@ -205,6 +205,13 @@ def shards(tier, prop):
         p0s = range(5) if prop in ('C01', 'C17', 'C09', 'C05') else (0, 3)
         for a in algs:
             for p0 in p0s:
+                if a == 2:
+                    # the plan-following policy forks most (planned machine x pool): second machine pinned as well
+                    # (measured: one p0 shard does not exhaust in 2400 s / 19k paths)
+                    for p1 in range(5):
+                        out.append({'fn': 'rnd', 'pin': {'alg': a, 'p0': p0, 'p1': p1, 'props': [prop], 'quick': True, 'free_i2': True, 'free_pools': True},
+                                    'cond_timeout': 900, 'path_timeout': 30})
+                    continue
                 out.append({'fn': 'rnd', 'pin': {'alg': a, 'p0': p0, 'props': [prop], 'quick': True, 'free_i2': True, 'free_pools': True},
                             'cond_timeout': 2400, 'path_timeout': 30})
             if a in (0, 1, 2):
